@@ -192,6 +192,12 @@ def _flag_ok(prog, body, arg, recv, depth=0):
     if q.is_call(a, "UnsealedState::tip_906"):
         ra, rr = q.root_of(a[2][0]), q.root_of(q.novers(recv))
         same = sig(ra) == sig(rr) or (a[2][0] == q.novers(recv)[1] if q.novers(recv)[0] == "field" else False)
+        if not same and rr[0] == "var":
+            # the receiver is a working copy of the state the flag was taken from (`let mut next = prev.clone()`): network and height, which
+            # determine tip_906, are not touched by coin-map updates
+            d0 = q.var_def_exprs(body, rr[1])
+            if d0 and sig(q.root_of(q.novers(mir.strip(d0[0][1])))) == sig(ra) and not q.stmt_writes(body, "height") and not q.stmt_writes(body, "network"):
+                same = True
         return True if same else "other-state:%s vs %s" % (sig(a[2][0]), sig(recv))
     if a[0] == "const":
         return False
